@@ -1,4 +1,5 @@
 import KyupyVerif.Proofs.Encode
+import KyupyVerif.Proofs.EncodeNested
 import KyupyVerif.Gen.MvTables
 import KyupyVerif.Gen.EncTables
 /-! # C15 — statements over the GENERATED tables of the real code
@@ -76,6 +77,20 @@ theorem str_roundtrip_single (delim : List Nat) (s : List Nat) :
 /-- **popcount** (table look-up in the real `_pop_count_lut`, summed) = number of one bits, for every `uint8` data -/
 theorem popcount_spec (a : List Nat) (ha : ∀ x ∈ a, x < 256) : popcountWith popCountLut a = onesOf a :=
   popcount_eq_ones popCountLut (by decide +kernel) a ha
+
+/-- **popcount on other integer dtypes** (audit 2, F6; the docstring says `uint8`): `_pop_count_lut[a]` is numpy indexing into 256
+entries, so for values in `-256 .. 255` (every `int8` array; `uint16`/`int32`/… arrays with small entries) the result is the number
+of one bits of the LOW BYTE in two's complement of each element — for `int8` that is the number of one bits of the data, for wider
+dtypes it is NOT (an `int32` `-1` counts 8, not 32) … -/
+theorem popcount_int_spec (a : List Int) (ha : ∀ x ∈ a, -256 ≤ x ∧ x < 256) :
+    popcountInt popCountLut a = some (onesOf (a.map fun x => (x % 256).toNat)) :=
+  popcountInt_spec popCountLut (by decide +kernel) a ha
+
+/-- … and any element outside `-256 .. 255` makes the real `popcount` raise IndexError (`popcount(np.uint16([511, 3]))`) -/
+theorem popcount_int_raises (a : List Int) (h : ∃ x ∈ a, x < -256 ∨ 256 ≤ x) : popcountInt popCountLut a = none :=
+  popcountInt_raises popCountLut a h
+
+example : popcountInt popCountLut [3, -1] = some 10 ∧ popcountInt popCountLut [511, 3] = none := by decide +kernel
 
 /-- `bit_in(a, pos)` masks bit `7 - pos % 8` of byte `pos / 8`: MOST significant bit first (the order of
 `np.packbits` default), i.e. not the lane order of `mv_to_bp` (`bp_layout`: least significant first) -/
